@@ -10,6 +10,10 @@
 (*  Notify_mc_timed.cfg   metric time (D = 2): changes before / at / after   *)
 (*                        the timer's instant.                               *)
 (*  Notify_mc_off.cfg     capability disabled.                               *)
+(*  Notify_mc_listen.cfg  subscriptions/listen requests over several URIs   *)
+(*                        with the SubscribeHandler rejecting any subset,    *)
+(*                        every interleaving of the loop with resource       *)
+(*                        updates, other subscribers, cancellation, close.   *)
 (*  Notify_lead_*.cfg     configurations in which TLC is EXPECTED to find a  *)
 (*                        counterexample (DESIGN.md section 9 lead 7 and the *)
 (*                        listen clean-up); run on NotifyGen so that the     *)
@@ -26,5 +30,8 @@ NeverWindow == ~(\E n \in Notifs : cbs[n] > 0 /\ ref[n] = "armed")       \* a Re
 NeverOrphan == ~(\E n \in Notifs, d \in Instants : orph[n][d] > 0)
 NeverGot == ~(\E s \in Sessions, n \in Notifs : got[s][n])
 NeverStopped == ~(\E n \in Notifs : cbs[n] > 0 /\ OnSessions = {} /\ budget.chg > 1)
+\* a listen request fails after the server has already entered an earlier URI of it
+NeverPartial == ~(\E s \in Sessions : /\ lst[s].st = "run" /\ lst[s].n >= 1 /\ lst[s].n < Len(lst[s].uris)
+                                        /\ lst[s].uris[lst[s].n + 1] \in lst[s].rej)
 NeverHit == ~(\E s \in Sessions, c \in Slots : call[s][c].hit)
 =============================================================================
